@@ -14,7 +14,7 @@ import (
 func init() {
 	eng.Register(&eng.Check{
 		ID:          "C17",
-		Rule:        "E1 bounded product for Filter.Execute: container shapes ([]T, named slice type, [N]T, map[K]T for K in {string,int,named string,bool,interface{} with keys that print alike}; nil and empty containers) over element kinds (struct, *struct incl. nil, map[string]interface{}, interface{}, struct with typed + hidden fields incl. the all-zero element) of length 0..4 (thorough 0..5) with EVERY assignment of three element values, plus lengths 8, 9, 17, 33 with selected patterns, (evaluating to T / F / error for `f == 1`) x 30 filter expressions; oracle against the implementation's own element-wise Evaluate: result type (same slice type, []Elem for arrays, same map type), kept elements in original order / kept keys, first evaluation error => (nil, err), input unchanged (deep comparison with an identically built twin), fresh backing storage, a nil Filter (literal nil and the one CreateFilter(\"\") returns) returns its input unchanged for containers AND for every non-container input, idempotence, E / not(E) partition when no element errs; non-containers (nil, int, string, struct, pointer to slice, chan, func) => error, never panic. Distinct by construction; non-trivial = container with >=1 element.",
+		Rule:        "E1 bounded product for Filter.Execute: container shapes ([]T, named slice type, [N]T, map[K]T for K in {string,int,named string,bool,interface{} with keys that print alike}; nil and empty containers) over element kinds (struct, *struct incl. nil, map[string]interface{}, interface{}, struct with typed + hidden fields incl. the all-zero element) of length 0..4 (thorough 0..5) with EVERY assignment of three element values, plus lengths 8, 9, 17, 33 with selected patterns, (evaluating to T / F / error for `f == 1`) x 30 filter expressions; oracle against the implementation's own element-wise Evaluate: result type (same slice type, []Elem for arrays, same map type), kept elements in original order / kept keys, first evaluation error => (nil, err), input unchanged (deep comparison with an identically built twin), fresh backing storage, a nil Filter (literal nil and the one CreateFilter(\"\") returns) returns its input unchanged for containers AND for every non-container input, idempotence, E / not(E) partition when no element errs; ONE Filter executed over all container types x element kinds in sequence (forward and reverse) must answer like a fresh Filter each time; non-containers (nil, int, string, struct, pointer to slice, chan, func) => error, never panic. Distinct by construction; non-trivial = container with >=1 element.",
 		Assumptions: []string{"differential against Evaluate on the same tree (Evaluate itself is C01's business)", "bounded container sizes and element alphabet"},
 		Run:         runC17,
 	})
@@ -357,6 +357,60 @@ func runC17(c *eng.Ctx) {
 					}
 				}
 			}
+		}
+		// ONE Filter over containers of different Go types in sequence (workers see only a slice of the (container, kind) units above, so
+		// this is the place where an array of a second element type, a map after a slice ... meets a Filter that has history): every
+		// result must equal the result of a freshly created Filter, in forward and in reverse order
+		if c.Mine(xi) && c.Want("c", -2) {
+			type inp struct {
+				name string
+				v    reflect.Value
+			}
+			var ins []inp
+			for _, ct := range conts {
+				for kind := 0; kind < 6; kind++ {
+					for _, pat := range [][]int{{vT, vF, vT}, {vF}} {
+						if v := ct.build(kind, pat); v.IsValid() {
+							ins = append(ins, inp{fmt.Sprintf("%s of %s %v", ct.name, c17ElemNames[kind], pat), v})
+						}
+					}
+				}
+			}
+			sig := func(o execOut) string {
+				switch {
+				case o.panicked != "":
+					return "PANIC " + o.panicked
+				case o.err != nil:
+					return "error"
+				}
+				return fmt.Sprintf("%T len=%d %v", o.res, reflect.ValueOf(o.res).Len(), o.res)
+			}
+			fresh := make([]string, len(ins))
+			for i, in := range ins {
+				f2, _ := bexpr.CreateFilter(src)
+				fresh[i] = sig(execute(f2, in.v.Interface()))
+				c.R.Evaluations++
+			}
+			for dir := 0; dir < 2; dir++ {
+				shared, _ := bexpr.CreateFilter(src)
+				for j := range ins {
+					i := j
+					if dir == 1 {
+						i = len(ins) - 1 - j
+					}
+					got := sig(execute(shared, ins[i].v.Interface()))
+					c.R.Evaluations++
+					c.R.States++
+					c.R.Traces++
+					c.R.Nontrivial++
+					if got != fresh[i] {
+						c.Violate(eng.Violation{Kind: "filter-result-depends-on-earlier-executions", Key: fmt.Sprintf("filter=%s | input #%d (%s) in direction %d", src, i, ins[i].name, dir), Coords: map[string]int{"x": xi, "c": -2},
+							Expected: fresh[i] + " (fresh Filter)", Observed: got})
+						break
+					}
+				}
+			}
+			c.Count("one-filter-many-container-types")
 		}
 		// non-containers
 		if c.Mine(xi) && c.Want("c", -1) {
